@@ -272,6 +272,14 @@ class Bag(Factory, Container):
             else:
                 raise JsonFormatException(json["name"], "Bag.name")
 
+            if isinstance(json["range"], basestring) and (
+                json["range"] in ("N", "S")
+                or (json["range"][:1] == "N" and json["range"][1:].isdigit() and int(json["range"][1:]) > 0)
+            ):
+                range = json["range"]
+            else:
+                raise JsonFormatException(json["range"], "Bag.range")
+
             if isinstance(json["values"], list):
                 values = {}
                 for i, nv in enumerate(json["values"]):
@@ -281,11 +289,18 @@ class Bag(Factory, Container):
                         else:
                             raise JsonFormatException(nv["w"], f"Bag.values {i} n")
 
-                        if nv["v"] in ("nan", "inf", "-inf") or isinstance(nv["v"], numbers.Real):
-                            v = floatOrNan(nv["v"])
-                        elif isinstance(nv["v"], basestring):
-                            v = nv["v"]
-                        elif isinstance(nv["v"], (list, tuple)):
+                        # each value must have the type the declared range promises
+                        if range == "S":
+                            if isinstance(nv["v"], basestring):
+                                v = nv["v"]
+                            else:
+                                raise JsonFormatException(nv["v"], f"Bag.values {i} v")
+                        elif range == "N":
+                            if nv["v"] in ("nan", "inf", "-inf") or isinstance(nv["v"], numbers.Real):
+                                v = floatOrNan(nv["v"])
+                            else:
+                                raise JsonFormatException(nv["v"], f"Bag.values {i} v")
+                        elif isinstance(nv["v"], (list, tuple)) and len(nv["v"]) == int(range[1:]):
                             for j, d in enumerate(nv["v"]):
                                 if d not in ("nan", "inf", "-inf") and not isinstance(d, numbers.Real):
                                     raise JsonFormatException(d, f"Bag.values {i} v {j}")
@@ -300,14 +315,6 @@ class Bag(Factory, Container):
 
             else:
                 raise JsonFormatException(json["values"], "Bag.values")
-
-            if isinstance(json["range"], basestring) and (
-                json["range"] in ("N", "S")
-                or (json["range"][:1] == "N" and json["range"][1:].isdigit() and int(json["range"][1:]) > 0)
-            ):
-                range = json["range"]
-            else:
-                raise JsonFormatException(json["range"], "Bag.range")
 
             out = Bag.ed(entries, values, range)
             out.quantity.name = nameFromParent if name is None else name
